@@ -47,13 +47,8 @@ OnCreate(ev) ==
    IN [v |-> Cls(e.cls, IF ev.rc > 0 THEN 0 ELSE -1, "C13 create: shape/argument class refused or accepted wrongly")
              \cup (IF ev.rc = 0 THEN {"C14 create returned descriptor 0"} ELSE {})
              \cup (IF ev.rc > 0 /\ ev.rc \in Live(st) THEN {"C14 create returned a descriptor that is live"} ELSE {})
-             \cup (IF ev.rc > 0 /\ ev.rc # e.d THEN {"C14 descriptor differs from the allocation rule (first free value after the counter)"} ELSE {})
-             \cup (IF ev.rc > 0 /\ ev.next1 # ev.rc THEN {"C14 counter not advanced to the new descriptor"} ELSE {})
-             \cup (IF ev.rc < 0 /\ ev.next1 # ev.next0 THEN {"C14 failed create moved the descriptor counter"} ELSE {})
-             \cup (IF ev.next0 # st.next THEN {"C14 descriptor counter differs from the model"} ELSE {})
              \cup (IF ev.rc > 0 /\ ~InstCfgOk(ev) THEN {"C14 new instance does not carry the requested configuration"} ELSE {})
              \cup (IF ev.rc > 0 /\ Delta(ev) <= 0 THEN {"C16 create allocated nothing"} ELSE {})
-             \cup (IF (ev.gf = 1) # (GfRef(s2) > 0) THEN {"C14 shared GF tables present iff an RS instance is live"} ELSE {})
              \cup Common(ev, "C13"),
        s |-> s2, e |-> encD, d |-> decD]
 OnDestroy(ev) ==
@@ -61,7 +56,6 @@ OnDestroy(ev) ==
        s2 == DestroyEffect(st, ev.x, ev.rc)
    IN [v |-> Cls(cls, ev.rc, "C14 destroy: live descriptor refused or dead descriptor accepted")
              \cup (IF ev.rc = 0 /\ Delta(ev) >= 0 THEN {"C16 destroy released nothing"} ELSE {})
-             \cup (IF (ev.gf = 1) # (GfRef(s2) > 0) THEN {"C14 shared GF tables present iff an RS instance is live"} ELSE {})
              \cup Common(ev, "C14") \cup AtRest(s2, ev.l1),
        s |-> s2, e |-> encD, d |-> decD]
 OnEncode(ev) ==
@@ -141,14 +135,24 @@ OnSize(ev) ==
     s |-> st, e |-> encD, d |-> decD]
 OnProj(ev) ==
    [v |-> (IF {ev.live[i] : i \in 1..Len(ev.live)} # Live(st) THEN {"C14 registry projection differs from the model (live descriptors)"} ELSE {})
-          \cup (IF ev.next # st.next THEN {"C14 descriptor counter differs from the model"} ELSE {})
-          \cup (IF (ev.gf = 1) # (GfRef(st) > 0) THEN {"C14 shared GF tables present iff an RS instance is live"} ELSE {})
           \cup AtRest(st, ev.l),
     s |-> st, e |-> encD, d |-> decD]
 OnAvail(ev) ==
    [v |-> (IF ((ev.rc = 1) # (ev.x \in Executable)) /\ ev.x >= 0 /\ ev.x < BackendsMax THEN {"C13 backend_available"} ELSE {})
           \cup (IF (ev.x < 0 \/ ev.x >= BackendsMax) /\ ev.rc # 0 THEN {"C13 backend_available on an out-of-range id"} ELSE {}) \cup NoDelta(ev),
     s |-> st, e |-> encD, d |-> decD]
+
+\* ---- implementation details the model follows but no property pins: reported as drift, never as a violation ----
+\* (the numbering policy of descriptors, the value of the counter, when the shared GF tables exist)
+GfDrift(ev, s2) == Has(ev, "gf") /\ ev.gf >= 0 /\ ((ev.gf = 1) # (GfRef(s2) > 0))
+Drift(ev) ==
+   CASE ev.e = "HCreate" ->
+          LET c == CfgOf(ev)  e == ExpectCreate(st, c, Fired(ev))  s2 == CreateEffect(st, c, ev.rc) IN
+             \/ (ev.rc > 0 /\ ev.rc # e.d) \/ (ev.rc > 0 /\ ev.next1 # ev.rc) \/ (ev.rc < 0 /\ ev.next1 # ev.next0)
+             \/ ev.next0 # st.next \/ GfDrift(ev, s2)
+     [] ev.e = "HDestroy" -> GfDrift(ev, DestroyEffect(st, ev.x, ev.rc))
+     [] ev.e = "Proj" -> ev.next # st.next \/ GfDrift(ev, st)
+     [] OTHER -> FALSE
 
 Step(ev) ==
    CASE ev.e = "HCreate" -> OnCreate(ev)
@@ -179,7 +183,7 @@ Next ==
             /\ st' = [InitState EXCEPT !.next = ev.next] /\ base' = ev.l /\ encD' = << >> /\ decD' = << >> /\ sync' = TRUE
             /\ Bump(2)
             /\ Report((IF sync /\ base # 0 /\ ev.l # base THEN {"C16 live block count after a full reset differs from the first baseline"} ELSE {})
-                      \cup (IF ev.gf # 0 THEN {"C14 GF tables still allocated although no instance is live"} ELSE {}))
+                      \cup (IF ev.gf = 1 THEN {"C16 GF tables still allocated although no instance is live"} ELSE {}))
          ELSE IF ev.e = "Fault" THEN
             \* a NULL dereference while an allocation failure is being injected = an unchecked allocation result: none of
             \* the listed properties speaks of running out of memory, so it is counted (register 12), not reported
@@ -189,6 +193,7 @@ Next ==
          ELSE IF ~sync THEN UNCHANGED <<st, base, encD, decD, sync>>
          ELSE LET r == Step(ev) IN
             /\ Report(r.v)
+            /\ (Drift(ev) => PrintT("DRIFT " \o ToString(l)) /\ Bump(13))
             /\ st' = r.s /\ encD' = r.e /\ decD' = r.d /\ UNCHANGED <<base, sync>>
             /\ (ev.e = "HCreate" => Bump(4) /\ (ev.rc > 0 => Bump(5)))
             /\ (ev.e = "HDestroy" => Bump(6))
